@@ -1,5 +1,5 @@
 /-
-Hoare-style rules for the ModXact operations: `Tri P f Q` says that `f`, started in a state satisfying the invariants and `P`,
+Hoare-style rules for the ModXact operations: `Tri w P f Q` says that `f`, started in a state satisfying the invariants and `P`,
 keeps `Main` at every exit and establishes `Aux` and `Q` at its non-throwing exits.
 -/
 import SquidModel.Icap.InvPrim
@@ -7,10 +7,12 @@ import SquidModel.Icap.InvPrim
 namespace SquidModel.Icap
 open SquidModel
 
-def Tri (P : St → Prop) (f : Op) (Q : St → Prop) : Prop :=
-  ∀ s, Main s → Aux s → P s → Main (f s) ∧ ((f s).thrown = false → Aux (f s) ∧ Q (f s))
+def Tri (w : Bool) (P : St → Prop) (f : Op) (Q : St → Prop) : Prop :=
+  ∀ s, Main s → AuxG w s → P s → Main (f s) ∧ ((f s).thrown = false → AuxG w (f s) ∧ Q (f s))
 
-theorem Tri.seq' {P Q R : St → Prop} {f g : Op} (h1 : Tri P f Q) (h2 : Tri Q g R) : Tri P (f ;; g) R := by
+variable {w : Bool}
+
+theorem Tri.seq' {P Q R : St → Prop} {f g : Op} (h1 : Tri w P f Q) (h2 : Tri w Q g R) : Tri w P (f ;; g) R := by
   intro s m a p
   have k := h1 s m a p
   show Main (seq f g s) ∧ _
@@ -22,7 +24,7 @@ theorem Tri.seq' {P Q R : St → Prop} {f g : Op} (h1 : Tri P f Q) (h2 : Tri Q g
     exact h2 _ k.1 (k.2 ht').1 (k.2 ht').2
 
 theorem Tri.cond' {P Q : St → Prop} {c : St → Bool} {t e : Op}
-    (ht : Tri (fun s => P s ∧ c s = true) t Q) (he : Tri (fun s => P s ∧ c s = false) e Q) : Tri P (cond c t e) Q := by
+    (ht : Tri w (fun s => P s ∧ c s = true) t Q) (he : Tri w (fun s => P s ∧ c s = false) e Q) : Tri w P (cond c t e) Q := by
   intro s m a p
   unfold Icap.cond
   by_cases h : c s = true
@@ -30,29 +32,29 @@ theorem Tri.cond' {P Q : St → Prop} {c : St → Bool} {t e : Op}
   · have h' : c s = false := by simpa using h
     simp only [h']; exact he s m a ⟨p, h'⟩
 
-theorem Tri.skip' {P : St → Prop} : Tri P skip P := fun _ m a p => ⟨m, fun _ => ⟨a, p⟩⟩
+theorem Tri.skip' {P : St → Prop} : Tri w P skip P := fun _ m a p => ⟨m, fun _ => ⟨a, p⟩⟩
 
-theorem Tri.weaken {P P' Q Q' : St → Prop} {f : Op} (h : Tri P f Q) (hp : ∀ s, P' s → P s) (hq : ∀ s, Q s → Q' s) : Tri P' f Q' :=
+theorem Tri.weaken {P P' Q Q' : St → Prop} {f : Op} (h : Tri w P f Q) (hp : ∀ s, P' s → P s) (hq : ∀ s, Q s → Q' s) : Tri w P' f Q' :=
   fun s m a p => ⟨(h s m a (hp s p)).1, fun t => ⟨((h s m a (hp s p)).2 t).1, hq _ ((h s m a (hp s p)).2 t).2⟩⟩
 
 /-- the precondition may be derived with the help of the invariants -/
-theorem Tri.pre_inv {P P' Q : St → Prop} {f : Op} (h : Tri P f Q) (hp : ∀ s, Main s → Aux s → P' s → P s) : Tri P' f Q :=
+theorem Tri.pre_inv {P P' Q : St → Prop} {f : Op} (h : Tri w P f Q) (hp : ∀ s, Main s → AuxG w s → P' s → P s) : Tri w P' f Q :=
   fun s m a p => h s m a (hp s m a p)
 
-theorem Tri.when' {P : St → Prop} {c : St → Bool} {t : Op} (ht : Tri (fun s => P s ∧ c s = true) t P) : Tri P (whenOp c t) P :=
+theorem Tri.when' {P : St → Prop} {c : St → Bool} {t : Op} (ht : Tri w (fun s => P s ∧ c s = true) t P) : Tri w P (whenOp c t) P :=
   Tri.cond' ht (Tri.skip'.weaken (fun _ h => h.1) (fun _ h => h))
 
-theorem Tri.throw' {P Q : St → Prop} : Tri P throwNow Q :=
+theorem Tri.throw' {P Q : St → Prop} : Tri w P throwNow Q :=
   fun s m _ _ => ⟨m.of_same (same_setThrown s) (fun h => h), fun h => by cases h⟩
 
-theorem Tri.must' {P : St → Prop} (c : St → Bool) : Tri P (must c) (fun s => P s ∧ c s = true) :=
+theorem Tri.must' {P : St → Prop} (c : St → Bool) : Tri w P (must c) (fun s => P s ∧ c s = true) :=
   Tri.cond' (Tri.skip'.weaken (fun _ h => h) (fun _ h => h)) Tri.throw'
 
 /-- a `Keeps` operation that does not disturb `P` -/
-theorem Tri.frame {P : St → Prop} {f : Op} (hk : Keeps f) (hf : ∀ s, P s → P (f s)) : Tri P f P :=
-  fun s m a p => ⟨hk.1 s m, fun t => ⟨hk.2 s m a t, hf s p⟩⟩
+theorem Tri.frame {P : St → Prop} {f : Op} (hk : Keeps f) (hf : ∀ s, P s → P (f s)) : Tri w P f P :=
+  fun s m a p => ⟨hk.1 s m, fun t => ⟨hk.2 w s m a t, hf s p⟩⟩
 
-theorem Keeps.tri {f : Op} (h : Keeps f) : Tri (fun _ => True) f (fun _ => True) := Tri.frame h (fun _ h => h)
+
 
 /-- raw updates of fields the invariants do not read -/
 syntax "same_upd" : tactic
@@ -81,7 +83,7 @@ theorem keeps_virginConsume : Keeps virginConsume := by
         omega
       · exact m
     · exact m.of_same (same_setThrown s) (fun h => h)
-  · intro s _ a
+  · intro w s _ a
     unfold virginConsume
     split; · exact fun _ => a
     split; · exact fun _ => a
@@ -89,7 +91,7 @@ theorem keeps_virginConsume : Keeps virginConsume := by
     split
     · dsimp only
       split
-      · intro _; exact Aux.of_sameAux (s := s) ⟨rfl, rfl, rfl, rfl, rfl⟩ a
+      · intro _; exact AuxG.of_sameAux (s := s) ⟨rfl, rfl, rfl, rfl, rfl⟩ a
       · exact fun _ => a
     · intro h; cases h
 
@@ -98,7 +100,7 @@ theorem keeps_noBypassNoRepeat : Keeps noBypassNoRepeat := by
   · intro s; exact ⟨rfl, rfl, rfl, rfl, rfl, rfl, rfl, rfl, rfl, rfl, rfl, rfl, rfl, rfl, rfl, rfl, rfl, rfl⟩
   · intro s h; cases h
 
-theorem Tri.atomic {P Q : St → Prop} {f : Op} (h : ∀ s, Main s → Aux s → P s → Main (f s) ∧ Aux (f s) ∧ Q (f s)) : Tri P f Q :=
+theorem Tri.atomic {P Q : St → Prop} {f : Op} (h : ∀ s, Main s → AuxG w s → P s → Main (f s) ∧ AuxG w (f s) ∧ Q (f s)) : Tri w P f Q :=
   fun s m a p => ⟨(h s m a p).1, fun _ => (h s m a p).2⟩
 
 syntax "keeps_base" : tactic
@@ -128,7 +130,7 @@ theorem Main.disableSending {s : St} (m : Main s) : Main { s with vSending := { 
    fun he => ⟨(m.ended he).clone, (m.ended he).plain, (m.ended he).part⟩, m.byp, m.sendV, m.taken_le, fun _ => rfl⟩
 
 theorem keeps_disableSending : Keeps (fun s => { s with vSending := { s.vSending with st := .disabled } }) :=
-  ⟨fun _ m => m.disableSending, fun s _ a _ => Aux.of_sameAux (s := s) ⟨rfl, rfl, rfl, rfl, rfl⟩ a⟩
+  ⟨fun _ m => m.disableSending, fun _ s _ a _ => AuxG.of_sameAux (s := s) ⟨rfl, rfl, rfl, rfl, rfl⟩ a⟩
 
 theorem keeps_stopBackup : Keeps stopBackup := by
   unfold stopBackup
@@ -151,7 +153,7 @@ macro_rules | `(tactic| keeps_base) => `(tactic| exact keeps_pvWrote _ _)
 theorem keeps_wroteChunk (c : Nat) : Keeps (wroteChunk c) := by
   unfold wroteChunk
   have k : Keeps (fun s => pvWrote c (s.endReached s.vWriting) s) :=
-    ⟨fun s m => (keeps_pvWrote _ _).1 s m, fun s m a => (keeps_pvWrote _ _).2 s m a⟩
+    ⟨fun s m => (keeps_pvWrote _ _).1 s m, fun w s m a => (keeps_pvWrote _ _).2 w s m a⟩
   with_reducible apply keeps_seq
   · with_reducible apply keeps_whenOp; exact k
   · keeps
@@ -165,7 +167,7 @@ theorem keeps_writeSomeBody (size : St → Nat) : Keeps (writeSomeBody size) := 
   · have k : ∀ s : St, Keeps (whenOp (fun _ => min (s.put - s.vWriting.start) (size s) > 0)
         ((fun s' : St => { s' with vWriting := { s'.vWriting with start := s'.vWriting.start + min (s.put - s.vWriting.start) (size s) } }) ;; virginConsume) ;;
         wroteChunk (min (s.put - s.vWriting.start) (size s))) := by intro s; keeps
-    exact ⟨fun s m => (k s).1 s m, fun s m a => (k s).2 s m a⟩
+    exact ⟨fun s m => (k s).1 s m, fun w s m a => (k s).2 w s m a⟩
 macro_rules | `(tactic| keeps_base) => `(tactic| exact keeps_writeSomeBody _)
 
 theorem keeps_decideWritingAfterPreview : Keeps decideWritingAfterPreview := by
@@ -278,7 +280,7 @@ theorem SameAux.ctl {s t : St} (h : SameAux s t) (P : Ctl) (p : s.ctl P) : t.ctl
   unfold St.ctl at *; rw [h.parsing, h.sending, h.head, h.outSt, h.uob]; exact p
 
 /-- a `Keeps` operation that is a frame for the control fields carries any fact about them -/
-theorem Tri.ctl {f : Op} (hk : Keeps f) (hf : Fr f) (P : Ctl) : Tri (fun s => s.ctl P) f (fun s => s.ctl P) :=
+theorem Tri.ctl {f : Op} (hk : Keeps f) (hf : Fr f) (P : Ctl) : Tri w (fun s => s.ctl P) f (fun s => s.ctl P) :=
   Tri.frame hk (fun s p => (hf s).ctl P p)
 
 end SquidModel.Icap
